@@ -552,6 +552,17 @@ def extra_configs(prop, tier, seed):
                     c['box'] = 'wide'
                     c['lb'], c['ub'] = runlevel.make_box(rng, 'wide', c['n_vars'])
                 extra.append(c)
+    if prop in ('C07', 'C01'):
+        # before the task: the incumbent reset to a default agent (another shape) / the bounds re-declared as column arrays
+        pool_v = [c for c in runlevel.gen_configs('thorough', seed + 401) if c['space'] == 'search']
+        for j_, kind in enumerate(['HC', 'SA', 'FA', 'SCA', 'PSO', 'ABC', 'GSA', 'BHA']):
+            for c in [c for c in pool_v if c['kind'] == kind][:1 if tier == 'quick' else 3]:
+                nv = max(c['n_vars'], 2)
+                base = dict(c, hook='observer', adv=0.0, n_iter=max(c['n_iter'], 4), n_agents=max(c['n_agents'], 4), n_vars=nv, box='wide', lb=[-10.0] * nv,
+                            ub=[10.0] * nv, objective='sphere', hyper={}, store_best_only=False)
+                if kind not in ('PSO',):
+                    extra.append(dict(base, reset_best=True))
+                extra.append(dict(base, reassign_bounds='column', adv=0.3))
     if prop == 'C07':
         # sweeps in which no agent gets a finite value (+inf penalties everywhere / on most of the box), small populations: whatever
         # the optimizer falls back on, nothing shares storage with anything else
